@@ -112,7 +112,8 @@ def migErrKind (e : String) : String :=
   else if e == "b1t6.ErrInvalidTrits" then "enc"
   else e
 
-def ops : List (String × Handler) := [
+/-- the ops of stages 8 and 9 (bip32path, migration) -/
+def opsB : List (String × Handler) := [
   -- pkg/migration: the generated Encode / Decode (with the iota.go b1t6 copy and guard they call)
   ("gen.mig.enc", fun
     | [h] => match bytesOfHex h with
@@ -144,7 +145,10 @@ def ops : List (String × Handler) := [
     | [c] => match natsOfCsv c with
       | some p => hexOfBytes (bytesOfBv (Gen.Bip32Path.code.Path_String (p.map (BitVec.ofNat 32))))
       | none => badOp
-    | _ => badOp),
+    | _ => badOp)
+]
+
+def ops : List (String × Handler) := [
   -- pkg/merkle: the four ops of the C15 stream, answered by the generated code (mirrored by the harness)
   ("gen.merkle.hash", fun
     | [hn, ls] => match C15.hashByName hn, (if ls == "-" then some [] else (ls.splitOn ";").mapM C15.parseLeaf) with
@@ -359,6 +363,6 @@ def ops : List (String × Handler) := [
             | some (e2, _, _, d2, dst) => s!"absorb={errStr e} squeeze={errStr e2} dir={d2.toNat} out={strOfLanes dst}"
       | _, _, _, _ => badOp
     | _ => badOp)
-]
+] ++ opsB
 
 end Iota.Driver.GenCode
